@@ -191,19 +191,19 @@ func (m *c12Mirror) expect(s c12Step) string {
 // ---- the child's world -----------------------------------------------------------------------------
 
 type c12Item struct {
-	name   string
-	g      *GT
-	zero   any
-	s      avro.Schema
-	sJSON  string
-	codec  avro.Codec
-	vals   []reflect.Value // generated values
-	encs   [][]byte        // their encodings by the shared codec, alone
-	datums []*Datum        // reference decoding of encs
-	wants  []reflect.Value // encs read back, alone
-	files  map[string][]byte
+	name    string
+	g       *GT
+	zero    any
+	s       avro.Schema
+	sJSON   string
+	codec   avro.Codec
+	vals    []reflect.Value // generated values
+	encs    [][]byte        // their encodings by the shared codec, alone
+	datums  []*Datum        // reference decoding of encs
+	wants   []reflect.Value // encs read back, alone
+	files   map[string][]byte
 	damaged map[string][]byte // per compressing codec: the file with the first block's stored bytes overwritten (the decompressor refuses it)
-	hasMap bool
+	hasMap  bool
 }
 
 type c12Failure struct {
